@@ -10,7 +10,7 @@
 From Coq Require Import List NArith ZArith Lia Bool Arith ZifyBool.
 From AnnVerif Require Import Base.Res Base.Bytes Model.VoteSet Model.ValSet Model.Node
   Proofs.BytesProofs Proofs.PowerSum Proofs.VoteSetProofs Proofs.NodeProofs Proofs.Backed Proofs.NodeBacked
-  Proofs.Emit Proofs.SgWalk Proofs.CommitWalk.
+  Proofs.Emit Proofs.SgWalk Proofs.CommitWalk Proofs.SignerDom.
 Require AnnVerif.Proofs.Protocol.
 Import ListNotations.
 Open Scope Z_scope.
@@ -213,7 +213,11 @@ Record sys := mkSys {
   offs : nat -> list vote;                (* ghost: what was delivered to each *)
   pcss : nat -> list (Z * block_id);      (* ghost: the block precommits each has emitted *)
   tr : list gv;                           (* the distinct votes signed so far, oldest first *)
-  cms : list (nat * bytes)                (* the commits observed: (validator, block hash) *)
+  cms : list (nat * bytes);               (* the commits observed: (validator, block hash) *)
+  dur : nat -> valset * option voteset * option bytes;   (* what each node starts the height from *)
+  logs : nat -> option (list input)       (* each node's write-ahead log of the height, newest first;
+                                             None once a peer's majority claim - which the code does
+                                             not log - has changed the node's state *)
 }.
 Definition upd {A} (f : nat -> A) (i : nat) (x : A) : nat -> A := fun j => if Nat.eqb j i then x else f j.
 Lemma upd_same {A} (f : nat -> A) i x : upd f i x i = x. Proof. unfold upd. now rewrite Nat.eqb_refl. Qed.
@@ -231,20 +235,29 @@ Inductive sstep (S S' : sys) : Prop :=
     handle c inp (st S i) = Ok (n', o) ->
     S' = mkSys (upd (st S) i n') (upd (offs S) i (delivered_of inp ++ offs S i))
                (upd (pcss S) i (pcs_after o (pcss S i)))
-               (emit_all i o (deliver_tr inp (tr S))) (commits_of i o ++ cms S) ->
+               (emit_all i o (deliver_tr inp (tr S))) (commits_of i o ++ cms S)
+               (dur S) (upd (logs S) i (option_map (cons inp) (logs S i))) ->
     sstep S S'
 (* a peer's claim of a +2/3 majority (VoteSetMaj23Message): recorded in the node's vote sets *)
 | sstep_maj i r t peer b :
     byz i = false -> height (st S i) = h0 ->
     S' = mkSys (upd (st S) i (set_votes (st S i) (hv_set_peer_maj23 (votes (st S i)) r t peer b)))
-               (offs S) (pcss S) (tr S) (cms S) ->
+               (offs S) (pcss S) (tr S) (cms S) (dur S) (upd (logs S) i None) ->
+    sstep S S'
+(* crash and restart: the node is re-initialised from its durable parts, with the signer file as the
+   crash left it, and replays its log *)
+| sstep_restart i l n0' nr :
+    byz i = false -> height (st S i) = h0 -> logs S i = Some l ->
+    init_node h0 (fst (fst (dur S i))) (snd (fst (dur S i))) (snd (dur S i)) (sg (st S i)) = Ok n0' ->
+    run c (rev l) n0' = Ok nr ->
+    S' = mkSys (upd (st S) i nr) (offs S) (pcss S) (tr S) (cms S) (dur S) (logs S) ->
     sstep S S'.
 
 Definition init_sys (S : sys) : Prop :=
   tr S = [] /\ cms S = [] /\
   forall i, byz i = false ->
-    offs S i = [] /\ pcss S i = [] /\
-    exists vs lc me s, init_node h0 vs lc me s = Ok (st S i) /\ vals_of vs = VS /\ sg_h s < h0.
+    offs S i = [] /\ pcss S i = [] /\ logs S i = Some [] /\
+    exists vs lc me s, dur S i = (vs, lc, me) /\ init_node h0 vs lc me s = Ok (st S i) /\ vals_of vs = VS /\ sg_h s < h0.
 
 Inductive reachable : sys -> Prop :=
 | reach_init S : init_sys S -> reachable S
@@ -254,16 +267,22 @@ Definition NI (i : nat) (S : sys) : Prop :=
   J VS h0 (offs S i) (pcss S i) (st S i) /\ Bsub (offs S i) (tr S) /\ Csub i (tr S) (pcss S i) /\ SInv i (sg (st S i)) (tr S).
 Definition commit_backed_in (G : list gv) (a : bytes) : Prop :=
   a <> [] /\ exists r b, b_hash b = a /\ Qr VS (votedG G r 2%N b).
+(* the log determines the state: replaying it from the durable parts gives the node's state *)
+Definition LogInv (i : nat) (S : sys) : Prop :=
+  forall l, logs S i = Some l ->
+    exists s0 n0, init_node h0 (fst (fst (dur S i))) (snd (fst (dur S i))) (snd (dur S i)) s0 = Ok n0 /\ run c (rev l) n0 = Ok (st S i).
 Definition SysInv (S : sys) : Prop :=
-  Rules (tr S) /\ (forall i, byz i = false -> NI i S) /\ (forall i a, In (i, a) (cms S) -> commit_backed_in (tr S) a).
+  Rules (tr S) /\ (forall i, byz i = false -> NI i S /\ LogInv i S) /\ (forall i a, In (i, a) (cms S) -> commit_backed_in (tr S) a).
 
 Lemma init_SysInv S : init_sys S -> SysInv S.
 Proof.
   intros (Et & Ec & Hn). split; [rewrite Et; apply Rules_nil|]. split; [|rewrite Ec; intros i a []].
-  intros i Hi. destruct (Hn i Hi) as (Eo & Ep & vs & lc & me & s & Ei & Ev & Hs). unfold NI. rewrite Eo, Ep, Et.
-  split; [|split; [intros v []|split; [intros r b []|split; [intros e []|]]]].
-  - split; [apply (init_ok VS h0 vs lc me s _ Ev Ei)|]. split; [apply (init_inv _ _ _ _ _ _ Ei)|]. intros _ r0 b [].
-  - unfold init_node in Ei. destruct (new_hvs _ _); try discriminate. injection Ei as <-. cbn. lia.
+  intros i Hi. destruct (Hn i Hi) as (Eo & Ep & El & vs & lc & me & s & Ed & Ei & Ev & Hs). split.
+  - unfold NI. rewrite Eo, Ep, Et.
+    split; [|split; [intros v []|split; [intros r b []|split; [intros e []|]]]].
+    + split; [apply (init_ok VS h0 vs lc me s _ Ev Ei)|]. split; [apply (init_inv _ _ _ _ _ _ Ei)|]. intros _ r0 b [].
+    + unfold init_node in Ei. destruct (new_hvs _ _); try discriminate. injection Ei as <-. cbn. lia.
+  - intros l Hl. rewrite El in Hl. injection Hl as <-. rewrite Ed. cbn [fst snd rev run]. exists s, (st S i). auto.
 Qed.
 
 Lemma commit_backed_incl G G' a : incl G G' -> commit_backed_in G a -> commit_backed_in G' a.
@@ -288,17 +307,29 @@ Proof.
   destruct Hin as [E|[]]. injection E as <- <-. split; [reflexivity|]. eexists. exact Hx.
 Qed.
 
+Lemma LogInv_other i j S S' : j <> i -> dur S' = dur S -> st S' j = st S j -> logs S' j = logs S j -> LogInv j S -> LogInv j S'.
+Proof. intros _ Ed Es El H l Hl. rewrite Ed, Es. apply H. rewrite <- El. exact Hl. Qed.
+
 Theorem sstep_SysInv S S' : SysInv S -> sstep S S' -> SysInv S'.
 Proof.
-  intros (HR & HN & HCm) [i inp n' o Hi Hh Hin Hadm Eh ->|i r t peer b Hi Hh ->].
-  2:{ split; [exact HR|]. split; [|exact HCm]. intros j Hj. unfold NI. cbn [st offs pcss tr].
-      destruct (Nat.eq_dec j i) as [->|Hne]; [|rewrite upd_other by exact Hne; apply HN; exact Hj].
-      rewrite upd_same. destruct (HN i Hi) as (HJ & HB & HC & HS). split; [|split; [exact HB|split; [exact HC|exact HS]]].
+  intros (HR & HN & HCm) [i inp n' o Hi Hh Hin Hadm Eh ->|i r t peer b Hi Hh ->|i l n0' nr Hi Hh Hl Ei Er ->].
+  3:{ (* restart: the replay of the log with the signer file of the crash is the state before it *)
+      destruct (HN i Hi) as (HNi & HLi). destruct (HLi l Hl) as (s0 & n0 & E0 & Erun).
+      destruct (restart_is_identity c Hskip _ _ _ _ _ _ _ _ E0 Erun) as (n0'' & E0' & Erun').
+      rewrite Ei in E0'. injection E0' as <-. rewrite Er in Erun'. injection Erun' as ->.
+      split; [exact HR|]. split; [|exact HCm]. intros j Hj. destruct (HN j Hj) as (HNj & HLj).
+      unfold NI, LogInv. cbn [st offs pcss tr dur logs].
+      destruct (Nat.eq_dec j i) as [->|Hne]; [rewrite upd_same|rewrite upd_other by exact Hne]; split; assumption. }
+  2:{ split; [exact HR|]. split; [|exact HCm]. intros j Hj. destruct (HN j Hj) as (HNj & HLj).
+      unfold NI, LogInv. cbn [st offs pcss tr dur logs].
+      destruct (Nat.eq_dec j i) as [->|Hne]; [|rewrite !upd_other by exact Hne; split; assumption].
+      rewrite !upd_same. split; [|intros l Hl; discriminate Hl].
+      destruct HNj as (HJ & HB & HC & HS). split; [|split; [exact HB|split; [exact HC|exact HS]]].
       apply (J_of_G VS h0 _ _ (st S i)); [exact HJ|apply votes_G; apply hv_set_peer_le|].
       destruct HJ as ((L & Hok) & _). split; [exact L|]. cbn [height votes set_votes]. intro E. destruct (Hok E) as [A B].
       split; [apply hv_set_peer_ok; [exact Hbounded|exact A]|]. rewrite <- B. unfold hv_set_peer_maj23. destruct (negb _); [reflexivity|].
       destruct (hv_get _ _ _); [|reflexivity]. unfold hv_put. destruct (zlookup _ _); reflexivity. }
-  destruct (HN i Hi) as (HJ & HB & HC & HS).
+  destruct (HN i Hi) as ((HJ & HB & HC & HS) & HLi).
   destruct (deliver_tr_spec inp (tr S)) as [D1 D2].
   set (G1 := deliver_tr inp (tr S)) in *.
   set (off' := delivered_of inp ++ offs S i).
@@ -325,9 +356,13 @@ Proof.
   assert (own2 : forall j e, byz j = false -> j <> i -> In e G2 -> g_idx e = j -> In e (tr S)).
   { intros j e Hj Hne He Hidx. destruct (O2 e He) as [A|A]; [apply (own j e Hj A Hidx)|congruence]. }
   split; [exact R2|]. split.
-  - intros j Hj. unfold NI. cbn [st offs pcss tr]. destruct (Nat.eq_dec j i) as [->|Hne].
-    + rewrite !upd_same. split; [exact HJ'|]. split; [eapply Bsub_incl; [exact I2|exact B1]|]. split; [exact C2|exact S2].
-    + rewrite !upd_other by exact Hne. destruct (HN j Hj) as (Jj & Bj & Cj & Sj).
+  - intros j Hj. unfold NI, LogInv. cbn [st offs pcss tr dur logs]. destruct (Nat.eq_dec j i) as [->|Hne].
+    + rewrite !upd_same. split; [split; [exact HJ'|]; split; [eapply Bsub_incl; [exact I2|exact B1]|]; split; [exact C2|exact S2]|].
+      intros l Hl. destruct (logs S i) as [l0|] eqn:El0; [|discriminate]. cbn in Hl. injection Hl as <-.
+      destruct (HLi l0 El0) as (s0 & n0 & E0 & Erun). exists s0, n0. split; [exact E0|].
+      cbn [rev]. rewrite run_app, Erun. cbn [run]. rewrite Eh. reflexivity.
+    + rewrite !upd_other by exact Hne. destruct (HN j Hj) as ((Jj & Bj & Cj & Sj) & HLj).
+      split; [|exact HLj].
       split; [exact Jj|]. split; [eapply Bsub_incl; [exact I02|exact Bj]|]. split.
       * intros r b Hg Hb. apply Cj; [apply (own2 j _ Hj Hne Hg eq_refl)|exact Hb].
       * destruct Sj as [A B]. split; [intros e He Hidx; apply A; [apply (own2 j _ Hj Hne He Hidx)|exact Hidx]|].
@@ -357,18 +392,34 @@ Definition exec1 (S : sys) (i : nat) (inp : input) : option sys :=
     match handle c inp (st S i) with
     | Ok (n', o) => Some (mkSys (upd (st S) i n') (upd (offs S) i (delivered_of inp ++ offs S i))
                                 (upd (pcss S) i (pcs_after o (pcss S i)))
-                                (emit_all i o (deliver_tr inp (tr S))) (commits_of i o ++ cms S))
+                                (emit_all i o (deliver_tr inp (tr S))) (commits_of i o ++ cms S)
+                                (dur S) (upd (logs S) i (option_map (cons inp) (logs S i))))
     | _ => None
     end
   else None.
-Inductive sevent := EIn (i : nat) (inp : input) | EMaj (i : nat) (r : Z) (t : N) (peer : bytes) (b : block_id).
+Inductive sevent := EIn (i : nat) (inp : input) | EMaj (i : nat) (r : Z) (t : N) (peer : bytes) (b : block_id)
+                 | ERestart (i : nat).
 Definition exec_ev (S : sys) (e : sevent) : option sys :=
   match e with
   | EIn i inp => exec1 S i inp
   | EMaj i r t peer b =>
     if negb (byz i) && (height (st S i) =? h0) then
       Some (mkSys (upd (st S) i (set_votes (st S i) (hv_set_peer_maj23 (votes (st S i)) r t peer b)))
-                  (offs S) (pcss S) (tr S) (cms S))
+                  (offs S) (pcss S) (tr S) (cms S) (dur S) (upd (logs S) i None))
+    else None
+  | ERestart i =>
+    if negb (byz i) && (height (st S i) =? h0) then
+      match logs S i with
+      | Some l =>
+        match init_node h0 (fst (fst (dur S i))) (snd (fst (dur S i))) (snd (dur S i)) (sg (st S i)) with
+        | Ok n0' => match run c (rev l) n0' with
+                    | Ok nr => Some (mkSys (upd (st S) i nr) (offs S) (pcss S) (tr S) (cms S) (dur S) (logs S))
+                    | _ => None
+                    end
+        | _ => None
+        end
+      | None => None
+      end
     else None
   end.
 Fixpoint exec (S : sys) (script : list sevent) : option sys :=
@@ -389,9 +440,14 @@ Proof.
 Qed.
 Lemma exec_ev_step S e S' : exec_ev S e = Some S' -> sstep S S'.
 Proof.
-  destruct e as [i inp|i r t peer b]; cbn [exec_ev]; [apply exec1_step|].
-  destruct (negb (byz i) && _) eqn:E; [|discriminate]. apply andb_prop in E as [Eb Eh]. intro H. injection H as <-.
-  apply (sstep_maj S _ i r t peer b); [now apply negb_true_iff in Eb|lia|reflexivity].
+  destruct e as [i inp|i r t peer b|i]; cbn [exec_ev]; [apply exec1_step| |].
+  - destruct (negb (byz i) && _) eqn:E; [|discriminate]. apply andb_prop in E as [Eb Eh]. intro H. injection H as <-.
+    apply (sstep_maj S _ i r t peer b); [now apply negb_true_iff in Eb|lia|reflexivity].
+  - destruct (negb (byz i) && _) eqn:E; [|discriminate]. apply andb_prop in E as [Eb Eh].
+    destruct (logs S i) as [l|] eqn:El; [|discriminate].
+    destruct (init_node _ _ _ _ _) as [n0'| |] eqn:Ei; try discriminate.
+    destruct (run c (rev l) n0') as [nr| |] eqn:Er; try discriminate. intro H. injection H as <-.
+    apply (sstep_restart S _ i l n0' nr); [now apply negb_true_iff in Eb|lia|exact El|exact Ei|exact Er|reflexivity].
 Qed.
 Lemma exec_reachable script : forall S S', reachable S -> exec S script = Some S' -> reachable S'.
 Proof.
